@@ -82,10 +82,12 @@ func (h *gcHook) fn(id int) {
 func c11stressTypes() []*gen.T {
 	L, S, M, P := gen.Leaf, gen.SliceOf, gen.MapOf, gen.PtrTo
 	inner := gen.StructOf(gen.Fld("A", "a", false, L(gen.KInt64)), gen.Fld("S", "s", false, L(gen.KString)), gen.Fld("P", "p", false, P(L(gen.KInt32))))
+	ints := gen.StructOf(gen.Fld("A", "a", false, L(gen.KInt64)), gen.Fld("B", "b", false, L(gen.KInt)), gen.Fld("C", "c", false, L(gen.KInt64)))
 	shapes := []*gen.T{
 		M(L(gen.KString)), S(L(gen.KString)), P(L(gen.KString)), P(P(L(gen.KInt64))), P(M(L(gen.KInt64))), P(S(L(gen.KString))),
 		M(M(L(gen.KInt64))), M(S(L(gen.KString))), S(M(L(gen.KString))), M(P(inner)), S(P(inner)), P(inner), M(inner), S(inner),
 		M(L(gen.KNullString)), S(L(gen.KNullTime)), M(L(gen.KTime)), P(L(gen.KNullInt)), S(L(gen.KBytes)), M(L(gen.KBytes)), P(L(gen.KBytes)),
+		M(L(gen.KInt64)), M(ints), S(ints), M(L(gen.KInt)), M(S(L(gen.KInt64))), P(ints),
 		P(M(M(P(L(gen.KString))))), S(S(S(L(gen.KString)))), M(S(M(S(L(gen.KBytes))))), P(P(P(inner))), P(S(P(M(L(gen.KString))))),
 	}
 	var out []*gen.T
@@ -99,12 +101,86 @@ func c11stressTypes() []*gen.T {
 	return out
 }
 
+// c11dead holds integers that are bit-for-bit addresses inside heap spans the
+// runtime has already freed. As integer data they are inert; if the library
+// ever parks one in memory whose type says "pointer", the collector's scan
+// finds a pointer to an unallocated span and the runtime stops the process.
+var c11dead []int64
+
+func c11deadAddrs() []int64 {
+	const sz = 16 << 20
+	a, b := make([]byte, sz), make([]byte, sz)
+	a[1], b[1] = 1, 1
+	churnSink[1], churnSink[2] = a, b
+	ua, ub := uintptr(unsafe.Pointer(&a[0])), uintptr(unsafe.Pointer(&b[0]))
+	churnSink[1], churnSink[2] = nil, nil
+	a, b = nil, nil
+	runtime.GC()
+	runtime.GC()
+	hi := ua
+	if ub > hi {
+		hi = ub
+	}
+	var out []int64
+	for k := 1; k <= 12; k++ {
+		// the tail of the higher block: the page allocator reuses low addresses first
+		out = append(out, int64(hi)+sz-int64(k)*8192-int64(k%4)*8)
+	}
+	return out
+}
+
+// plantInts overwrites some 64-bit integer leaves reachable from v (generated
+// types only) with values from c11dead.
+func plantInts(r *rand.Rand, v reflect.Value, n *int64) {
+	switch v.Kind() {
+	case reflect.Int64, reflect.Int, reflect.Uint64, reflect.Uint:
+		if !v.CanSet() || r.IntN(2) == 0 || len(c11dead) == 0 {
+			return
+		}
+		a := c11dead[r.IntN(len(c11dead))]
+		if v.CanInt() {
+			v.SetInt(a)
+		} else {
+			v.SetUint(uint64(a))
+		}
+		*n++
+	case reflect.Struct:
+		if v.Type().PkgPath() != "" { // time.Time, null.*: not ours to edit
+			return
+		}
+		for k := 0; k < v.NumField(); k++ {
+			if v.Type().Field(k).IsExported() {
+				plantInts(r, v.Field(k), n)
+			}
+		}
+	case reflect.Pointer:
+		if !v.IsNil() {
+			plantInts(r, v.Elem(), n)
+		}
+	case reflect.Slice, reflect.Array:
+		if v.Type().Elem().Kind() == reflect.Uint8 {
+			return
+		}
+		for k := 0; k < v.Len(); k++ {
+			plantInts(r, v.Index(k), n)
+		}
+	case reflect.Map:
+		for _, key := range v.MapKeys() {
+			e := reflect.New(v.Type().Elem()).Elem()
+			e.Set(v.MapIndex(key))
+			plantInts(r, e, n)
+			v.SetMapIndex(key, e)
+		}
+	}
+}
+
 type c11file struct {
-	file   []byte
-	t      *gen.T
-	want   []reflect.Value
-	origin string
-	desc   string
+	file    []byte
+	t       *gen.T
+	want    []reflect.Value
+	origin  string
+	desc    string
+	planted int64
 }
 
 func c11genFile(c *core.Ctx, i int, r *rand.Rand) *c11file {
@@ -125,7 +201,11 @@ func c11genFile(c *core.Ctx, i int, r *rand.Rand) *c11file {
 			if r.IntN(4) == 0 {
 				o.Mode = gen.ModeFull
 			}
-			f.want = append(f.want, gen.NewValue(r, f.t, o))
+			val := gen.NewValue(r, f.t, o)
+			if k%2 == 1 {
+				plantInts(r, val, &f.planted)
+			}
+			f.want = append(f.want, val)
 		}
 		var buf bytes.Buffer
 		if err := lib.EncodeTwin(&buf, f.t.RT(), f.want, lib.EncodeCfg{Compression: avro.Compression(codec), BlockSize: []int{0, 256, 4096, 1 << 20}[r.IntN(4)], Plan: lib.FlushPlan{AtEnd: 1}}); err != nil {
@@ -135,7 +215,8 @@ func c11genFile(c *core.Ctx, i int, r *rand.Rand) *c11file {
 		f.file = buf.Bytes()
 		f.origin = "library-encoder"
 	default: // reference writer into target variations (pointer depth, fixed arrays behind pointers, wrappers)
-		ds := gen.GenDataSchema(r, gen.DataOpts{MaxDepth: 2 + r.IntN(3)})
+		// every other schema carries date/timestamp logical types (time.Time behind pointers and in maps under int/long)
+		ds := gen.GenDataSchema(r, gen.DataOpts{MaxDepth: 2 + r.IntN(3), CallerMode: r.IntN(2) == 0})
 		f.t = ds.Target(r, ds.S, gen.TargetOpts{})
 		var recs []any
 		for k := 0; k < nrec; k++ {
@@ -174,9 +255,11 @@ var c11bg struct {
 
 func c11setup(c *core.Ctx) {
 	c11hook = &gcHook{k: 1, budget: 1 << 62, rng: uint64(c.Seed)*977 + uint64(c.Shard)}
+	c11dead = c11deadAddrs()
 	avro.SetVerifHook(c11hook.fn)
 	// clobberfree canary: an object kept only in a uintptr must be clobbered by the collector
-	if strings.Contains(os.Getenv("GODEBUG"), "clobberfree=1") {
+	// (not under checkptr/race builds: the canary's deliberate use-after-free read is exactly what checkptr kills)
+	if strings.Contains(os.Getenv("GODEBUG"), "clobberfree=1") && c.Mode.Variant != "checkptr" && c.Mode.Variant != "race" {
 		p := new([64]uint64)
 		for k := range p {
 			p[k] = 0x0707070707070707
@@ -249,6 +332,7 @@ func runC11(c *core.Ctx, i int) {
 		}
 	}
 	c.Count("records-verified", int64(len(got)))
+	c.Count("address-like-integers-planted", f.planted)
 	c.Count("forced-gcs", min64(h.forced.Load(), h.budget))
 	// encode side: iteration over maps etc. while collections run
 	if f.origin == "library-encoder" {
@@ -310,7 +394,7 @@ func init() {
 		ID:        "C11",
 		Level:     "exploration",
 		Technique: "runtime monitoring: decode and encode workloads under the runtime's own GC debugging (GODEBUG=clobberfree=1, gccheckmark=1, GOGC=1), forced collections + heap churn at hook points inside the library, a background collector goroutine, and deep re-examination of every retained value afterwards; second Go runtime in the thorough tier",
-		Rule: "files from the library's encoder (26 explicit stress shapes: maps/slices behind pointers, maps of maps, maps of slices, pointer chains, wrappers in every position; plus random composite-heavy types) and from the reference writer into target variations; a collection is forced on every k-th hit of each hook point (k = 1..7 by case), then 5 rounds of GC+churn before every retained record is compared; " +
+		Rule: "files from the library's encoder (32 explicit stress shapes: maps/slices behind pointers, maps of maps, maps of slices, pointer chains, wrappers in every position; plus random composite-heavy types) and from the reference writer into target variations; every second record of a library-encoded file has its 64-bit integer leaves overwritten with address-like values (addresses inside spans the runtime has freed), so integer data parked in pointer-typed memory is a runtime bad-pointer stop; a collection is forced on every k-th hit of each hook point (k = 1..7 by case), then 5 rounds of GC+churn before every retained record is compared; " +
 			"distinct_nontrivial = distinct (origin, type shape) combinations decoded under forced collections and re-verified",
 		Explanation: "clobberfree makes the collector overwrite every object it frees, so 'reachable only through a non-pointer word' becomes a value mismatch at the next comparison instead of depending on reuse; hook points put a cycle into each window (after New before use, before mapassign, after slice regrowth, around the callback, inside the map-iteration loop). A runtime fatal error (bad pointer, found pointer to free object) kills the child and is attributed via the journal.",
 		Assumptions: []string{"open finding c01.nested-null is kept out of the values (it is about representability, not the collector)", "hook points are optional aids: if a call site is missing from the tree the outside-in stressors (GOGC=1, background GC, post-decode rounds) still apply"},
@@ -326,7 +410,7 @@ func init() {
 			}
 			return m
 		},
-		NumCases: func(c *core.Ctx) int { return c.Pick(480, 2000) },
+		NumCases: func(c *core.Ctx) int { return c.Pick(480, 1440) },
 		Setup:    nil,
 		Run:      runC11,
 		Finish:   c11finish,
